@@ -100,23 +100,36 @@ variable (conf : Conf) (request : Msg) (kids0 : List Child)
 @[keepsKernel] theorem popNum_k : Keeps (KidsI conf request kids0) popNum := by unfold popNum; keeps_k
 @[keepsKernel] theorem getMe_k : Keeps (KidsI conf request kids0) getMe := by unfold getMe; keeps_k
 @[keepsKernel] theorem emitNl_k (l) : Keeps (KidsI conf request kids0) (emitNl l) := by keeps_k
-@[keepsKernel] theorem installChild_k (k) : Keeps (KidsI conf request kids0) (installChild k) := by unfold installChild; keeps_k
 @[keepsKernel] theorem childNonce_k (m) : Keeps (KidsI conf request kids0) (childNonce m) := by unfold childNonce; keeps_k
 @[keepsKernel] theorem childKe_k (m p) : Keeps (KidsI conf request kids0) (childKe m p) := by unfold childKe; keeps_k
 @[keepsKernel] theorem childRekeyPrelude_k (m sa a b) : Keeps (KidsI conf request kids0) (childRekeyPrelude m sa a b) := by
   unfold childRekeyPrelude; keeps_k
 
-/-- adding a record the property accepts -/
-theorem addKid_k (k : Child) (hk : RespKidOk conf request k) : Keeps (KidsI conf request kids0) (addKid k) := by
-  unfold addKid modMe
-  apply Keeps.modify
+/-- installing and tracking a record the property accepts -/
+theorem trackChild_k (k : Child) (hk : RespKidOk conf request k) : Keeps (KidsI conf request kids0) (trackChild k) := by
+  constructor
   intro s h
+  rcases trackChild_me k s with h1 | h1
+  · exact ⟨by rw [h1]; exact h.1, by rw [h1]; exact h.2⟩
+  · refine ⟨by rw [h1]; exact h.1, ?_⟩
+    rw [h1]
+    intro x hx
+    simp only [XSa.setKids, List.mem_append, List.mem_singleton] at hx
+    rcases hx with hx | rfl
+    · exact h.2 x hx
+    · exact Or.inr hk
+
+theorem untrackChild_me (k : Child) (s : HSt) : (untrackChild k s).2.me = s.me.setKids (removeKid s.me.ext.kids k) := rfl
+
+/-- removing a record keeps "old or accepted" -/
+@[keepsKernel] theorem untrackChild_k (k : Child) : Keeps (KidsI conf request kids0) (untrackChild k) := by
+  constructor
+  intro s h
+  rw [KidsI, untrackChild_me]
   refine ⟨h.1, ?_⟩
   intro x hx
-  simp only [XSa.setKids, List.mem_append, List.mem_singleton] at hx
-  rcases hx with hx | rfl
-  · exact h.2 x hx
-  · exact Or.inr hk
+  simp only [XSa.setKids, removeKid] at hx
+  exact h.2 x (List.mem_of_mem_eraseP hx)
 
 /-- the path conditions of `_process_create_child_sa_negotiation_req` justify the record it creates -/
 theorem respKid_ok (sa : List Proposal) (tsis tsrs : List TS) (hsa : paySA request true = .ok sa)
@@ -151,29 +164,22 @@ theorem childCreateResponder_k (chosen : Proposal) (ctsr ctsi : TS) (mode : Nat)
   unfold childCreateResponder
   apply Keeps.bind (popBytes_k conf request kids0)
   intro spi
-  apply Keeps.bind (installChild_k conf request kids0 _)
-  intro _
-  apply Keeps.bind (addKid_k conf request kids0 _ (hk spi))
+  apply Keeps.bind (trackChild_k conf request kids0 _ (hk spi))
   intro _
   exact Keeps.pure _
 
 theorem childNegotiationReqBody_k : Keeps (KidsI conf request kids0) (childNegotiationReqBody request) := by
   unfold childNegotiationReqBody
   keeps_k
-  · rename_i sa hsa tsis htsi tsrs htsr x hx _ i ctsr ctsi hg _ pol hp _ _ _ ht hm _ chosen hs _ spi _
-    apply addKid_k
-    refine respKid_ok conf request sa tsis tsrs hsa htsi htsr x hx i ctsr ctsi hg pol hp 0 (by simpa using hm) ?_ _ ?_ chosen hs spi
-    · simp at ht; simp [ht]
+  all_goals (
+    simp only [ne_eq, Decidable.not_not] at *
+    apply trackChild_k
+    refine respKid_ok conf request _ _ _ ‹paySA request true = _› ‹payTS request ptTSi true = _› ‹payTS request ptTSr true = _›
+      _ ‹_ = conf› _ _ _ ‹getIpsecConf _ _ _ = _› _ ‹_ = some _› _ ‹_› ?_ _ ?_ _ ‹selectBest _ _ = _› _
+    · simp_all
     · intro t h; split at h
       · exact withoutDh_sub _ t h
-      · exact h
-  · rename_i sa hsa tsis htsi tsrs htsr x hx _ i ctsr ctsi hg _ pol hp _ _ _ ht hm _ chosen hs _ spi _
-    apply addKid_k
-    refine respKid_ok conf request sa tsis tsrs hsa htsi htsr x hx i ctsr ctsi hg pol hp 1 (by simpa using hm) ?_ _ ?_ chosen hs spi
-    · simp at ht; simp [ht]
-    · intro t h; split at h
-      · exact withoutDh_sub _ t h
-      · exact h
+      · exact h)
 
 @[keepsKernel] theorem childNegotiationReqBody_k' : Keeps (KidsI conf request kids0) (childNegotiationReqBody request) :=
   childNegotiationReqBody_k conf request kids0
@@ -186,22 +192,11 @@ theorem childNegotiationReqBody_k : Keeps (KidsI conf request kids0) (childNegot
 @[keepsKernel] theorem setState_k (st) : Keeps (KidsI conf request kids0) (setState st) := by keeps_k
 @[keepsKernel] theorem checkInStates_k (l) : Keeps (KidsI conf request kids0) (checkInStates l) := by unfold checkInStates; keeps_k
 @[keepsKernel] theorem assertState_k (l) : Keeps (KidsI conf request kids0) (assertState l) := by unfold assertState; keeps_k
-@[keepsKernel] theorem uninstallChild_k (k) : Keeps (KidsI conf request kids0) (uninstallChild k) := by unfold uninstallChild; keeps_k
 @[keepsKernel] theorem getSlot_k (sl) : Keeps (KidsI conf request kids0) (getSlot sl) := by
   cases sl
   · simp only [getSlot]; keeps_k
   · constructor; intro s h; simp only [getSlot]; split <;> exact h
   · constructor; intro s h; simp only [getSlot]; split <;> exact h
-
-/-- removing a record keeps "old or accepted" -/
-@[keepsKernel] theorem dropKid_k (k : Child) : Keeps (KidsI conf request kids0) (dropKid k) := by
-  unfold dropKid modMe
-  apply Keeps.modify
-  intro s h
-  refine ⟨h.1, ?_⟩
-  intro x hx
-  simp only [XSa.setKids, removeKid] at hx
-  exact h.2 x (List.mem_of_mem_eraseP hx)
 
 /-- the IKE_SA rekey hand-over leaves this object without CHILD_SA records -/
 @[keepsKernel] theorem handOver_k (b) : Keeps (KidsI conf request kids0) (handOver b) := by
@@ -282,11 +277,11 @@ end kids
 /-- whatever request a request handler is run on, from whatever object and oracle tape: every CHILD_SA record tracked
     afterwards was tracked before or is one the property accepts -/
 theorem requestHandler_kids (now : Nat) (request : Msg) (h : HM HRes) (hh : requestHandler now request = some h)
-    (me : XSa) (succ : Option XSa) (tape : Tape) :
-    ∀ k ∈ (runH h me succ tape).me.ext.kids, k ∈ me.ext.kids ∨ RespKidOk me.ext.conf request k := by
+    (me : XSa) (succ : Option XSa) (tape : Tape) (sad : List (Bytes × Nat × Bytes)) :
+    ∀ k ∈ (runH h me succ tape sad).me.ext.kids, k ∈ me.ext.kids ∨ RespKidOk me.ext.conf request k := by
   rw [runH_me]
   have hk := requestHandler_k me.ext.conf request me.ext.kids now h hh
-  have := hk.keep { me := me, succ := succ, tape := tape } ⟨rfl, fun k hk => Or.inl hk⟩
+  have := hk.keep { me := me, succ := succ, tape := tape, sad := sad } ⟨rfl, fun k hk => Or.inl hk⟩
   exact this.2
 
 /-! ### initiator: what `_process_create_child_sa_negotiation_res` installs -/
@@ -383,28 +378,28 @@ variable (cr : Child) (response : Msg) (kids0 : List Child)
 @[keepsInit] theorem getPayload_i (m pt e) : Keeps (InitI cr response kids0) (getPayload m pt e) := Keeps.liftE _
 @[keepsInit] theorem emitNl_i (l) : Keeps (InitI cr response kids0) (emitNl l) := by keeps_i
 @[keepsInit] theorem setState_i (st) : Keeps (InitI cr response kids0) (setState st) := by keeps_i
-@[keepsInit] theorem installChild_i (k) : Keeps (InitI cr response kids0) (installChild k) := by unfold installChild; keeps_i
-@[keepsInit] theorem uninstallChild_i (k) : Keeps (InitI cr response kids0) (uninstallChild k) := by unfold uninstallChild; keeps_i
 @[keepsInit] theorem abortOnErrorNotifies_i (m e i) : Keeps (InitI cr response kids0) (abortOnErrorNotifies m e i) := by
   unfold abortOnErrorNotifies; keeps_i
 @[keepsInit] theorem checkInStates_i (l) : Keeps (InitI cr response kids0) (checkInStates l) := by unfold checkInStates; keeps_i
 @[keepsInit] theorem assertState_i (l) : Keeps (InitI cr response kids0) (assertState l) := by unfold assertState; keeps_i
 
-theorem addKid_i (k : Child) (hk : InitKidOk cr response k) : Keeps (InitI cr response kids0) (addKid k) := by
-  unfold addKid modMe
-  apply Keeps.modify
+theorem trackChild_i (k : Child) (hk : InitKidOk cr response k) : Keeps (InitI cr response kids0) (trackChild k) := by
+  constructor
   intro s h
-  refine ⟨by simpa [XSa.setKids] using h.1, ?_⟩
-  intro x hx
-  simp only [XSa.setKids, List.mem_append, List.mem_singleton] at hx
-  rcases hx with hx | rfl
-  · exact h.2 x hx
-  · exact Or.inr hk
+  rcases trackChild_me k s with h1 | h1
+  · exact ⟨by rw [h1]; exact h.1, by rw [h1]; exact h.2⟩
+  · refine ⟨by rw [h1]; simpa [XSa.setKids] using h.1, ?_⟩
+    rw [h1]
+    intro x hx
+    simp only [XSa.setKids, List.mem_append, List.mem_singleton] at hx
+    rcases hx with hx | rfl
+    · exact h.2 x hx
+    · exact Or.inr hk
 
-@[keepsInit] theorem dropKid_i (k : Child) : Keeps (InitI cr response kids0) (dropKid k) := by
-  unfold dropKid modMe
-  apply Keeps.modify
+@[keepsInit] theorem untrackChild_i (k : Child) : Keeps (InitI cr response kids0) (untrackChild k) := by
+  constructor
   intro s h
+  rw [InitI, untrackChild_me]
   refine ⟨by simpa [XSa.setKids] using h.1, ?_⟩
   intro x hx
   simp only [XSa.setKids, removeKid] at hx
@@ -441,7 +436,7 @@ theorem childNegotiationResBody_i : Keeps (InitI cr response kids0) (childNegoti
   all_goals (
     first
     | apply setCreating_i
-    | apply addKid_i)
+    | apply trackChild_i)
   all_goals (
     simp only [ne_eq, Decidable.not_not] at *
     refine initKid_ok' cr response _ _ ‹_› ‹_› ?_ _ ?_ _ ‹childResponseOk _ _ = true› _ _ ‹initiatorTsOk _ _ _ _ = true›
@@ -528,11 +523,11 @@ end init
 /-- whatever response a response handler is run on, from whatever object and oracle tape: every CHILD_SA record tracked
     afterwards was tracked before or is what the property accepts for the outstanding offer -/
 theorem responseHandler_kids (now : Nat) (response : Msg) (h : HM HRes) (hh : responseHandler now response = some h)
-    (me : XSa) (succ : Option XSa) (tape : Tape) (cr : Child) (hcr : me.ext.creating = some cr) :
-    ∀ k ∈ (runH h me succ tape).me.ext.kids, k ∈ me.ext.kids ∨ InitKidOk cr response k := by
+    (me : XSa) (succ : Option XSa) (tape : Tape) (sad : List (Bytes × Nat × Bytes)) (cr : Child) (hcr : me.ext.creating = some cr) :
+    ∀ k ∈ (runH h me succ tape sad).me.ext.kids, k ∈ me.ext.kids ∨ InitKidOk cr response k := by
   rw [runH_me]
   have hk := responseHandler_i cr response me.ext.kids now h hh
-  have := hk.keep { me := me, succ := succ, tape := tape } ⟨Or.inl hcr, fun k hk => Or.inl hk⟩
+  have := hk.keep { me := me, succ := succ, tape := tape, sad := sad } ⟨Or.inl hcr, fun k hk => Or.inl hk⟩
   exact this.2
 
 end PyIkev2.Impl
